@@ -90,19 +90,19 @@ func panicValue(kind string) interface{} {
 	case "error":
 		return errors.New("boom-error")
 	case "struct":
-		return struct{ A int }{42}
+		return struct{ A int }{424242}
 	case "abort":
 		return http.ErrAbortHandler
 	case "custom":
 		return customErr{7}
 	case "int":
-		return 12345
+		return 987654321
 	case "slice":
-		return []int{4, 2}
+		return []int{515151, 2}
 	case "map":
-		return map[string]int{"fortytwo": 42}
+		return map[string]int{"fortytwo-in-map": 1}
 	case "ncstruct":
-		return struct{ Xs []string }{[]string{"fortytwo"}}
+		return struct{ Xs []string }{[]string{"fortytwo-in-struct"}}
 	case "typednil":
 		// a non-nil interface value holding a nil pointer whose Error method
 		// dereferences the receiver
@@ -113,10 +113,17 @@ func panicValue(kind string) interface{} {
 	return "boom"
 }
 
+// beforeBoom is assembled at run time: the development page quotes source
+// lines, which must not contain the token that stands for the panic value.
+func beforeBoom() string { return strings.Join([]string{"before", "function", "went", "boom"}, "-") }
+
 func raise(kind string) {
 	if kind == "runtime" {
-		var m map[string]int
-		m["x"] = 1 // runtime error: assignment to entry in nil map
+		// a run-time panic raised by the Go runtime itself; the text of the error
+		// is made at run time ("index out of range [717] with length 3"), so no
+		// source line quoted in a stack trace contains it
+		xs := make([]int, 3)
+		xs[len(kind)+710]++
 	}
 	panic(panicValue(kind))
 }
@@ -126,31 +133,33 @@ func raise(kind string) {
 func panicToken(kind string) string {
 	switch kind {
 	case "runtime":
-		return "nil map"
+		return "[717]"
 	case "string":
 		return "boom-string"
 	case "error":
 		return "boom-error"
 	case "struct":
-		return "42"
+		return "424242"
 	case "slice":
-		return "4"
-	case "map", "ncstruct":
-		return "fortytwo"
+		return "515151"
+	case "map":
+		return "fortytwo-in-map"
+	case "ncstruct":
+		return "fortytwo-in-struct"
 	case "abort":
-		return "abort"
+		return http.ErrAbortHandler.Error()
 	case "custom":
 		return "custom error 7"
 	case "int":
-		return "12345"
+		return "987654321"
 	case "inj":
 		return "unmapped" // the unresolvable type is named (C04); the wording around it is free
 	case "before":
-		return "before-boom"
+		return beforeBoom()
 	case "badcode":
 		return "invalid WriteHeader code"
 	}
-	return "" // typednil: only the PANIC page itself is required
+	return "" // typednil: how the value prints is open; the page must still be the panic page (see the check)
 }
 
 // ---- interpreter of the handlers after Recovery --------------------------------
@@ -258,9 +267,10 @@ func simulate(hs []H) (m *sim) {
 // ---- the application ---------------------------------------------------------------
 
 type app struct {
-	f      *flamego.Flame
-	log    []string
-	cancel func()
+	f          *flamego.Flame
+	seenStatus []int // Status() as read by each recording middleware after Next()
+	log        []string
+	cancel     func()
 }
 
 func build(c Case) *app {
@@ -271,6 +281,8 @@ func build(c Case) *app {
 			a.log = append(a.log, fmt.Sprintf("pre %d", k))
 			ctx.Next()
 			a.log = append(a.log, fmt.Sprintf("post %d", k))
+			// what a logging middleware would read once Next() is back
+			a.seenStatus = append(a.seenStatus, ctx.ResponseWriter().Status())
 		})
 	}
 	var hs []flamego.Handler
@@ -292,7 +304,7 @@ func build(c Case) *app {
 				case op == "b":
 					_, _ = w.Write([]byte(fmt.Sprintf("h%d;", i)))
 				case op == "bfw":
-					flamegoWriter(w).Before(func(flamego.ResponseWriter) { panic("before-boom") })
+					flamegoWriter(w).Before(func(flamego.ResponseWriter) { panic(beforeBoom()) })
 					_, _ = w.Write([]byte(fmt.Sprintf("h%d;", i)))
 				case op == "xc":
 					w.WriteHeader(1000)
@@ -449,7 +461,7 @@ func checkCase(c Case) (out evid.Outcome) {
 	}
 	sawPanic := false
 	for i, which := range c.Reqs {
-		a.log = nil
+		a.log, a.seenStatus = nil, nil
 		got := serveM(a, method, c.path(which))
 		desc := fmt.Sprintf("request %d (%s) of %s", i, which, js(c))
 		if got.escaped != nil {
@@ -481,9 +493,22 @@ func checkCase(c Case) (out evid.Outcome) {
 			continue
 		}
 		sawPanic = true
+		if want.panicked == "badcode" {
+			// what happens to a status code the underlying writer would reject is
+			// not specified (the wrapper may panic, answer 500 itself or ignore
+			// the call): only "nothing escapes, outer middleware completes" is held
+			out.NonTrivial = true
+			out.Classes = append(out.Classes, "kind:badcode")
+			continue
+		}
 		wantStatus := want.status
 		if wantStatus == 0 {
 			wantStatus = 500
+		}
+		for k, st := range a.seenStatus {
+			if st != wantStatus {
+				return fail(out, "outer-middleware-status", "recording middleware (the %d. to return) reads Status() = %d after Next(), the response has status %d; %s", k+1, st, wantStatus, desc)
+			}
 		}
 		if got.status != wantStatus {
 			return fail(out, "status", "status %d, want %d (status sent before the panic: %d); %s", got.status, wantStatus, want.status, desc)
@@ -500,19 +525,14 @@ func checkCase(c Case) (out evid.Outcome) {
 			out.Classes = append(out.Classes, "head")
 			continue
 		}
-		if want.panicked == "badcode" {
-			// what happens to a status code the underlying writer would reject is
-			// not specified (the wrapper may as well answer 500 itself without any
-			// panic): only the status is checked
-			out.NonTrivial = true
-			out.Classes = append(out.Classes, "kind:badcode")
-			continue
-		}
 		// "panic detail appears in the body only in development mode": the
 		// statement does not fix the wording of either page, so only the presence
 		// / absence of the detail (the rendered value, stack frames) is checked
 		token := panicToken(want.panicked)
 		if c.Env == "development" {
+			if token == "" && !strings.Contains(strings.ToUpper(tail), "PANIC") {
+				return fail(out, "dev-detail", "development mode: body tail %q is not a panic page; %s", clip(tail), desc)
+			}
 			if token != "" && !strings.Contains(tail, token) {
 				return fail(out, "dev-detail", "development mode: body tail %q does not show the panic value (looking for %q); %s", clip(tail), token, desc)
 			}
@@ -611,6 +631,18 @@ func genCase(t *rapid.T) Case {
 			}
 		}
 		c.After = append(c.After, h)
+	}
+	hasPanic := false
+	for _, h := range c.After {
+		for _, op := range h.Ops {
+			if op == "bfw" || op == "xc" || op == "inj" || strings.HasPrefix(op, "p") {
+				hasPanic = true
+			}
+		}
+	}
+	if !hasPanic && rapid.IntRange(0, 3).Draw(t, "forcepanic") > 0 {
+		last := &c.After[len(c.After)-1]
+		last.Ops = append(last.Ops, "p:"+kinds[rapid.IntRange(0, len(kinds)-1).Draw(t, "fkind")])
 	}
 	for i, k := 0, rapid.IntRange(1, 4).Draw(t, "nreqs"); i < k; i++ {
 		c.Reqs = append(c.Reqs, []string{"p", "p", "ok"}[rapid.IntRange(0, 2).Draw(t, "req")])
